@@ -16,6 +16,9 @@ import (
 // A generated value: the YAML node that is written and the Go value of the field's type it denotes.
 // The text is produced *from* the Go value (Duration.String, MarshalText/the type's own text form,
 // decimal numbers), so the expected typed value is known by construction, never guessed.
+var scalarLooking = []string{"123", "0123", "-7", "1.50", "1e3", "0x1F", "0o17", "true", "False", "null", "~", "yes", "off", "2024-01-02", "12:30:45",
+	"a: b", "[x, y]", "{k: v}", "- item", "#nocomment", "x #tail", "'quoted'", "\"dq\"", ".inf", ".NaN", "1_000", "+1", "0b11", "!!str x", "&a x", "*a", "|", ">", "%TAG"}
+
 type genVal struct {
 	yaml    any
 	want    reflect.Value // value of the leaf type
@@ -165,6 +168,11 @@ func genFor(rng *rand.Rand, c *comp, t reflect.Type, key string, depth int) (gen
 		s, named := namedString(rng, c, key)
 		if !named {
 			s = tok(rng, "v")
+			if rng.Intn(5) == 0 {
+				// texts that YAML would read as something else when unquoted (the writer quotes them; through a
+				// ${env:...} reference a string setting must still receive exactly this text)
+				s = scalarLooking[rng.Intn(len(scalarLooking))]
+			}
 		}
 		return genVal{yaml: s, want: reflect.ValueOf(s).Convert(t)}, true
 	case reflect.Slice:
